@@ -9,10 +9,18 @@ package main
 // benchmark's own verification.
 
 import (
+	"context"
 	"fmt"
+	"io"
+	"log"
 	"math"
 	"math/rand"
+	"os"
+	"os/exec"
+	"path/filepath"
 	"reflect"
+	"strconv"
+	"strings"
 	"time"
 	"unsafe"
 
@@ -20,7 +28,13 @@ import (
 	"github.com/sarchlab/mgpusim/v4/amd/benchmarks/amdappsdk/floydwarshall"
 	"github.com/sarchlab/mgpusim/v4/amd/benchmarks/amdappsdk/matrixtranspose"
 	"github.com/sarchlab/mgpusim/v4/amd/benchmarks/amdappsdk/vectoradd"
+	"github.com/sarchlab/mgpusim/v4/amd/benchmarks/amdappsdk/fastwalshtransform"
+	"github.com/sarchlab/mgpusim/v4/amd/benchmarks/amdappsdk/simpleconvolution"
+	"github.com/sarchlab/mgpusim/v4/amd/benchmarks/heteromark/aes"
 	"github.com/sarchlab/mgpusim/v4/amd/benchmarks/heteromark/fir"
+	"github.com/sarchlab/mgpusim/v4/amd/benchmarks/heteromark/kmeans"
+	"github.com/sarchlab/mgpusim/v4/amd/benchmarks/rodinia/nw"
+	"github.com/sarchlab/mgpusim/v4/amd/benchmarks/shoc/stencil2d"
 	"github.com/sarchlab/mgpusim/v4/amd/driver"
 )
 
@@ -37,6 +51,7 @@ type c18Workload struct {
 	outputs []string // unexported host-side result slices of the benchmark
 	device  []string // unexported device pointers read back with MemCopyD2H: "field:bytesPerElem*lengthField"
 	timing  bool
+	noPlain bool // the benchmark refuses several GPUs unless they are unified
 }
 
 // c18Field reads an unexported field of a benchmark object.
@@ -107,9 +122,46 @@ var c18Workloads = []c18Workload{
 			b.NumIterations = 0
 			return b
 		}},
-	{name: "fir", device: []string{"gOutputData"},
+	{name: "fir", device: []string{"gOutputData:4"},
 		mk: func(d *driver.Driver, small bool) c18Bench {
 			b := fir.NewBenchmark(d)
+			b.Length = 1024
+			return b
+		}},
+	{name: "aes", device: []string{"gInput:1"},
+		mk: func(d *driver.Driver, small bool) c18Bench {
+			b := aes.NewBenchmark(d)
+			b.Length = 4096
+			return b
+		}},
+	{name: "kmeans", outputs: []string{"hMembership", "hClusters"},
+		mk: func(d *driver.Driver, small bool) c18Bench {
+			b := kmeans.NewBenchmark(d)
+			b.NumPoints, b.NumClusters, b.NumFeatures, b.MaxIter = 256, 3, 8, 3
+			return b
+		}},
+	{name: "nw", noPlain: true, outputs: []string{"outputItemSets"},
+		mk: func(d *driver.Driver, small bool) c18Bench {
+			b := nw.NewBenchmark(d)
+			b.SetLength(64)
+			return b
+		}},
+	{name: "simpleconvolution", outputs: []string{"hOutputData"},
+		mk: func(d *driver.Driver, small bool) c18Bench {
+			b := simpleconvolution.NewBenchmark(d)
+			b.Width, b.Height = 62, 62
+			b.SetMaskSize(3)
+			return b
+		}},
+	{name: "stencil2d", outputs: []string{"hOutput"},
+		mk: func(d *driver.Driver, small bool) c18Bench {
+			b := stencil2d.NewBenchmark(d)
+			b.NumIteration, b.NumRows, b.NumCols = 2, 66, 66
+			return b
+		}},
+	{name: "fastwalshtransform", outputs: []string{"hInputArray"},
+		mk: func(d *driver.Driver, small bool) c18Bench {
+			b := fastwalshtransform.NewBenchmark(d)
 			b.Length = 1024
 			return b
 		}},
@@ -133,13 +185,92 @@ func (c c18DynCfg) String() string {
 	return fmt.Sprintf("%s gpus=%v %s", p, c.gpus, m)
 }
 
-// c18RunWorkload runs one workload in one configuration on a fresh platform and returns its final data.
+func init() { childFuncs["c18dyn"] = c18DynChild }
+
+// c18DynChild: `harness child c18dyn <workload> <gpus,comma> <unified 0|1> <timing 0|1> <outfile>`.
+// A panic inside the simulation engine ends the process (Driver.runEngine calls atexit.Exit), and a
+// hung driver cannot be stopped, so every dynamic run lives in its own process. The final data go to
+// <outfile>, the status is the last line on stdout.
+func c18DynChild(args []string) {
+	if len(args) != 5 {
+		os.Exit(2)
+	}
+	log.SetOutput(io.Discard)
+	var w *c18Workload
+	for i := range c18Workloads {
+		if c18Workloads[i].name == args[0] {
+			w = &c18Workloads[i]
+		}
+	}
+	if w == nil {
+		os.Exit(2)
+	}
+	cfg := c18DynCfg{unified: args[2] == "1", timing: args[3] == "1"}
+	for _, g := range strings.Split(args[1], ",") {
+		v, _ := strconv.Atoi(g)
+		cfg.gpus = append(cfg.gpus, v)
+	}
+	data, st := c18RunInProcess(filepath.Dir(args[4]), *w, cfg, 100*time.Second)
+	if data != nil {
+		must(os.WriteFile(args[4], data, 0o644))
+	}
+	fmt.Printf("\nC18DYN-STATUS %s\n", st)
+	os.Exit(0)
+}
+
+// c18RunWorkload runs one workload in one configuration in a child process and returns its final data.
 func c18RunWorkload(r *Run, w c18Workload, cfg c18DynCfg, limit time.Duration) (data []byte, status string) {
+	gs := make([]string, len(cfg.gpus))
+	for i, g := range cfg.gpus {
+		gs[i] = strconv.Itoa(g)
+	}
+	out := filepath.Join(r.OutDir, fmt.Sprintf("c18dyn_%s_%s_%s_%s.bin", w.name, strings.Join(gs, "-"), b01(cfg.unified), b01(cfg.timing)))
+	os.Remove(out)
+	ctx, cancel := context.WithTimeout(context.Background(), limit)
+	defer cancel()
+	exe, err := os.Executable()
+	if err != nil {
+		exe = os.Args[0]
+	}
+	cmd := exec.CommandContext(ctx, exe, "child", "c18dyn", w.name, strings.Join(gs, ","), b01(cfg.unified), b01(cfg.timing), out)
+	cmd.Dir = r.OutDir
+	cmd.Env = append(os.Environ(), "GOMEMLIMIT=6GiB")
+	o, err := cmd.CombinedOutput()
+	defer os.Remove(out)
+	if ctx.Err() != nil {
+		return nil, "hang"
+	}
+	text := string(o)
+	i := strings.LastIndex(text, "C18DYN-STATUS ")
+	if i < 0 {
+		tail := strings.TrimSpace(text)
+		if k := strings.Index(tail, "panic: "); k >= 0 {
+			tail = tail[k:]
+			if len(tail) > 300 {
+				tail = tail[:300]
+			}
+		} else if k := strings.Index(tail, "panic"); k >= 0 {
+			tail = tail[k:]
+			if len(tail) > 200 {
+				tail = tail[:200]
+			}
+		} else if len(tail) > 200 {
+			tail = tail[len(tail)-200:]
+		}
+		return nil, fmt.Sprintf("crash:process ended (%v): %s", err, strings.ReplaceAll(tail, "\n", " / "))
+	}
+	status = strings.TrimSpace(text[i+len("C18DYN-STATUS "):])
+	data, _ = os.ReadFile(out)
+	return data, status
+}
+
+// c18RunInProcess runs one workload in one configuration on a fresh platform and returns its final data.
+func c18RunInProcess(outDir string, w c18Workload, cfg c18DynCfg, limit time.Duration) (data []byte, status string) {
 	var p *platform
 	if cfg.timing {
-		p = newTimingPlatform(r.OutDir, len(cfg.gpus), "r9nano", false)
+		p = newTimingPlatform(outDir, len(cfg.gpus), "r9nano", false)
 	} else {
-		p = newEmuPlatform(r.OutDir, 4, 12)
+		p = newEmuPlatform(outDir, 4, 12)
 	}
 	rand.Seed(20240918)
 	var b c18Bench
@@ -167,10 +298,15 @@ func c18RunWorkload(r *Run, w c18Workload, cfg c18DynCfg, limit time.Duration) (
 		}
 		data = append(data, c18Bytes(v)...)
 	}
-	for _, f := range w.device {
+	for _, spec := range w.device {
+		f, per := spec, int64(4)
+		if i := strings.IndexByte(spec, ':'); i > 0 {
+			f = spec[:i]
+			per, _ = strconv.ParseInt(spec[i+1:], 10, 64)
+		}
 		v := c18Field(b, f)
 		ctx := c18Field(b, "context").Interface().(*driver.Context)
-		n := c18Field(b, "Length").Int() * 4
+		n := c18Field(b, "Length").Int() * per
 		buf := make([]byte, n)
 		ok, fault := withTimeout(limit, func() { p.drv.MemCopyD2H(ctx, buf, driver.Ptr(v.Uint())) })
 		if !ok || fault != "" {
@@ -188,64 +324,103 @@ func c18RunWorkload(r *Run, w c18Workload, cfg c18DynCfg, limit time.Duration) (
 	return data, "ok"
 }
 
+type c18DynJob struct {
+	w    c18Workload
+	cfg  c18DynCfg
+	data []byte
+	st   string
+}
+
 func c18Dynamic(r *Run, rng *Rng) {
 	thorough := r.Tier == "thorough"
 	sets := [][]int{{1, 2}, {1, 2, 3, 4}}
 	if thorough {
 		sets = append(sets, []int{2, 3}, []int{1, 2, 3}, []int{4, 1})
 	}
-	t0 := time.Now()
+	// job list: per workload the single-GPU baseline first, then every other configuration
+	var jobs []*c18DynJob
 	for _, w := range c18Workloads {
-		base, st := c18RunWorkload(r, w, c18DynCfg{gpus: []int{1}}, 90*time.Second)
-		line := fmt.Sprintf("dyn %s %s", w.name, c18DynCfg{gpus: []int{1}})
-		r.Count("dyn.run")
-		r.Checked("dyn.single")
-		if st != "ok" {
-			r.Failf("C18.dyn.single."+w.name, line, "single-GPU run: %s", st)
-			continue
-		}
-		cfgs := []c18DynCfg{{gpus: []int{1}, unified: true}}
+		jobs = append(jobs, &c18DynJob{w: w, cfg: c18DynCfg{gpus: []int{1}}})
+		jobs = append(jobs, &c18DynJob{w: w, cfg: c18DynCfg{gpus: []int{1}, unified: true}})
 		for _, s := range sets {
-			cfgs = append(cfgs, c18DynCfg{gpus: s}, c18DynCfg{gpus: s, unified: true})
-		}
-		for _, cfg := range cfgs {
-			line := fmt.Sprintf("dyn %s %s", w.name, cfg)
-			got, st := c18RunWorkload(r, w, cfg, 90*time.Second)
-			r.Count("dyn.run")
-			r.Count("dyn.emu." + w.name)
-			r.Checked("dyn.equal")
-			c18Compare(r, w.name, line, base, got, st)
+			if !w.noPlain {
+				jobs = append(jobs, &c18DynJob{w: w, cfg: c18DynCfg{gpus: s}})
+			}
+			jobs = append(jobs, &c18DynJob{w: w, cfg: c18DynCfg{gpus: s, unified: true}})
 		}
 	}
-	r.Note("dynamic emulation runs took %.1fs", time.Since(t0).Seconds())
-	// timing platform, 2 GPUs: remote accesses cross the real RDMA engines
-	t1 := time.Now()
 	for _, w := range c18Workloads {
 		if !w.timing {
 			continue
 		}
-		base, st := c18RunWorkload(r, w, c18DynCfg{gpus: []int{1}, timing: true}, 120*time.Second)
-		line := fmt.Sprintf("dyn %s %s", w.name, c18DynCfg{gpus: []int{1}, timing: true})
-		r.Count("dyn.run")
-		r.Checked("dyn.single")
-		if st != "ok" {
-			r.Failf("C18.dyn.single."+w.name, line, "single-GPU timing run: %s", st)
-			continue
-		}
-		cfgs := []c18DynCfg{{gpus: []int{1, 2}, timing: true}}
+		// timing platform, 2 GPUs: remote accesses cross the real RDMA engines
+		jobs = append(jobs, &c18DynJob{w: w, cfg: c18DynCfg{gpus: []int{1}, timing: true}})
+		jobs = append(jobs, &c18DynJob{w: w, cfg: c18DynCfg{gpus: []int{1, 2}, timing: true}})
 		if thorough {
-			cfgs = append(cfgs, c18DynCfg{gpus: []int{1, 2}, timing: true, unified: true})
-		}
-		for _, cfg := range cfgs {
-			line := fmt.Sprintf("dyn %s %s", w.name, cfg)
-			got, st := c18RunWorkload(r, w, cfg, 120*time.Second)
-			r.Count("dyn.run")
-			r.Count("dyn.timing." + w.name)
-			r.Checked("dyn.equal")
-			c18Compare(r, w.name, line, base, got, st)
+			jobs = append(jobs, &c18DynJob{w: w, cfg: c18DynCfg{gpus: []int{1, 2}, timing: true, unified: true}})
 		}
 	}
-	r.Note("dynamic timing runs took %.1fs", time.Since(t1).Seconds())
+	t0 := time.Now()
+	sem := make(chan struct{}, 6)
+	done := make(chan struct{})
+	for _, j := range jobs {
+		j := j
+		go func() {
+			sem <- struct{}{}
+			// Driver.DrainCommandQueue has a lost-wake-up race (property C12) that shows as a rare
+			// hang under load; a hung run is repeated, only a persistent hang is reported here
+			for attempt := 0; attempt < 3; attempt++ {
+				limit := 45 * time.Second
+				if j.cfg.timing {
+					limit = 120 * time.Second
+				}
+				j.data, j.st = c18RunWorkload(r, j.w, j.cfg, limit)
+				if j.st == "hang" {
+					r.Count("dyn.repeat-after-hang")
+					continue
+				}
+				if strings.HasPrefix(j.st, "crash:process ended") && attempt < 2 {
+					// an engine panic that does not repeat is a schedule-dependent failure (C05/C12
+					// territory); only a crash that repeats three times is reported for this property
+					r.Count("dyn.repeat-after-crash")
+					r.Note("crash repeated: %s %s: %s", j.w.name, j.cfg, j.st)
+					continue
+				}
+				break
+			}
+			<-sem
+			done <- struct{}{}
+		}()
+	}
+	for range jobs {
+		<-done
+	}
+	r.Note("dynamic runs (%d child processes, 6 at a time) took %.1fs", len(jobs), time.Since(t0).Seconds())
+	base := map[string]*c18DynJob{}
+	for _, j := range jobs {
+		key := j.w.name + "/" + b01(j.cfg.timing)
+		line := fmt.Sprintf("dyn %s %s", j.w.name, j.cfg)
+		r.Count("dyn.run")
+		if len(j.cfg.gpus) == 1 && !j.cfg.unified {
+			base[key] = j
+			r.Checked("dyn.single")
+			if j.st != "ok" {
+				r.Failf("C18.dyn.single."+j.w.name, line, "single-GPU run: %s", j.st)
+			}
+			continue
+		}
+		b := base[key]
+		if b == nil || b.st != "ok" {
+			continue
+		}
+		if j.cfg.timing {
+			r.Count("dyn.timing." + j.w.name)
+		} else {
+			r.Count("dyn.emu." + j.w.name)
+		}
+		r.Checked("dyn.equal")
+		c18Compare(r, j.w.name, line, b.data, j.data, j.st)
+	}
 }
 
 func c18Compare(r *Run, name, line string, base, got []byte, st string) {
